@@ -180,7 +180,7 @@ def obligations(tier):
     obs.append(Ob('bit_deinterleave_symbolic_bytes', 'ch', '2 channels, 1..2 blocks of 2 / 1..2 frames, one fully symbolic mantissa byte per block',
                   ['BIT.ReadBIT.BITFrameArray.add_block/complete', 'ReadBIT.gen_floats'], harness='C13_bit', func='check_blocks_data',
                   timeout=120 if tier == 'quick' else 900, stubs=['list-backed numpy stand-in (engine/fakenp.py) for LogPass.FrameChannel storage', 'gen_floats replaced by a 4-byte tuple generator in this obligation only (value map = the SMT obligations)']))
-    obs.append(Ob('bit_file_walk', 'ch', '1..2 log passes, 1..2 channels, 1..2 blocks, TIF chain with symbolic block sizes, trailing type-1 markers; the type test and two reads on one file object',
+    obs.append(Ob('bit_file_walk', 'ch', '1..2 log passes, 1..2 channels, 0..2 blocks (0 = header only), TIF chain with symbolic block sizes, trailing type-1 markers; the type test and two reads on one file object',
                   ['BIT.ReadBIT.yield_tif_blocks', 'ReadBIT.create_bit_frame_array_from_file', 'BITFrameArray'], harness='C13_bit', func='check_file',
                   timeout=120 if tier == 'quick' else 900, stubs=['SymFile', 'PyStruct for TIF_WORD_STRUCT', 'list-backed numpy stand-in']))
     return obs
